@@ -61,7 +61,7 @@ def tasks(tier):
     # order1 hands the 4x4 system to augmented_matrix / gj_solve (C13): their
     # contracts for n = 4 are re-proved here
     return ['shepard', 'sph', 'splash', 'splash_norm', 'order1', 'traces',
-            'setup', 'evaluator', 'canary', 'dep:C13:helpers:4',
+            'setup', 'evaluator', 'canary', 'native', 'dep:C13:helpers:4',
             'dep:C13:gj:4:1',
             # new points / arrays reach the compiled evaluator through
             # AccelerationEval.set_nnps / update_particle_arrays (C03) and the
@@ -338,10 +338,75 @@ def replay_sum(cls, method):
 
 
 # --------------------------------------------------------------------- tasks
+def task_native(ctx):
+    """BOUNDED stand-in, never counted as proved: the real Interpolator with
+    the evaluator it generates and compiles, against the defining formulas
+    evaluated with numpy (contracts/c14_native_walk.py), through interpolate
+    / move + update / set_interpolation_points / update_particle_arrays.
+    The contracts above are on the equation bodies and the wiring; the
+    compiled neighbour loop and the refresh of caches after replacement are
+    only exercised here."""
+    import itertools
+    import os
+    from concurrent.futures import ThreadPoolExecutor
+    from pyvc.repo import REPO_ROOT
+    thorough = ctx.tier == 'thorough'
+    if thorough:
+        combos = [[mt, dim, na, per] for mt, dim, na, per in
+                  itertools.product(['shepard', 'sph', 'splash',
+                                     'splash_norm', 'order1'], (1, 2, 3),
+                                    (1, 2), (0, 1))
+                  if not (mt == 'order1' and per)]
+        seeds = (0, 1)
+    else:
+        combos = [['shepard', 2, 2, 1], ['sph', 1, 1, 0],
+                  ['splash_norm', 2, 1, 0], ['order1', 2, 1, 0]]
+        seeds = (1,)
+    src = open(os.path.join(os.path.dirname(os.path.abspath(__file__)),
+                            'c14_native_walk.py')).read()
+    jobs = [(c, sd) for c in combos for sd in seeds]
+
+    def one(job):
+        c, sd = job
+        return native.run_venv(src, dict(root=REPO_ROOT, combos=[c],
+                                         seed=sd), timeout=3000, cwd='/tmp')
+    with ThreadPoolExecutor(8 if thorough else 4) as ex:
+        res = list(ex.map(one, jobs))
+    bound = ('%d configurations (method x dimension x 1 or 2 source arrays x '
+             'open / periodic in x; kernels Gaussian and CubicSpline; '
+             'perturbed lattices with variable h, m, rho; 12 random target '
+             'points), each through 5 stages: interpolate, move + update(), '
+             'set_interpolation_points, update_particle_arrays, new points '
+             'again; values against the defining sums over all particles and '
+             'periodic images within radius_scale * max(h_i, h_j) (rtol '
+             '1e-9); order1 against a random linear field and its gradient '
+             '(rtol 1e-6, targets in [0.3, 0.7]^d, not periodic)' % len(jobs))
+    bad = [r['bad'] for r in res if r['bad']]
+    if bad:
+        b = bad[0]
+        ctx.bounded_check('native.%s.dim%s' % (b.get('method'), b.get('dim')),
+                          bound, 1, False, b)
+    else:
+        ctx.bounded_check('native.interpolator_stages', bound,
+                          sum(r['cases'] for r in res), True,
+                          'stages that agree with the defining formulas')
+    # a two-dimensional set that lies in the x-z plane (its own case name: a
+    # recorded finding must not hide the configurations above)
+    r = native.run_venv(src, dict(root=REPO_ROOT, combos=[
+        ['order1', 2, 1, 0, 'xz']], seed=1), timeout=3000, cwd='/tmp')
+    ctx.bounded_check('native.order1.xz_plane', 'one perturbed 9 x 9 lattice '
+                      'in the x-z plane, random linear field a + b x + c z, '
+                      '12 targets in [0.3, 0.7]^2: value and the x and z '
+                      'gradient components (rtol 1e-6)', 1, r['bad'] is None,
+                      r['bad'] or 'linear field and gradient reproduced')
+
+
 def run_task(task, ctx):
     if task.startswith('dep:'):
         from contracts import deps
         return deps.run_dep(task, ctx)
+    if task == 'native':
+        return task_native(ctx)
     repo = Repo()
     m = repo.module(MOD)
     if task == 'setup':
@@ -465,6 +530,44 @@ def task_weighted(ctx, repo, m, cls, method):
         lem.append(Obligation('%s.mean.empty.%d' % (T, i), o.pc + [
             P == 0, N == 0], r == 0, W, extra=dict(backends=['z3'])))
     ctx.prove('%s.weighted_mean_lemmas' % T, lem, use_nf=False)
+    # ... and from the property, not from the code: the value IS the
+    # weighted mean wherever some source is in range, i.e. for EVERY positive
+    # denominator (the lemmas above carry the code's absolute threshold
+    # 1e-12 as a hypothesis)
+    if method != 'shepard':
+        return
+    strict = []
+    for i, o in enumerate(outs2):
+        r = S.to_real(o.state.env['d_prop'][D_IDX])
+        strict.append(Obligation('%s.mean.any_positive_weight.%d' % (T, i),
+                                 o.pc + [P == c * N, N > 0], r == c, W,
+                                 extra=dict(backends=['z3'])))
+
+    def rp_small(model, ob, cls=cls):
+        from pyvc.repo import REPO_ROOT
+        script = r"""
+import json, sys, importlib.util, inspect
+d = json.load(sys.stdin)
+spec = importlib.util.spec_from_file_location('pysph.tools.interp_ut', d['root'] + '/pysph/tools/interpolator.py')
+mod = importlib.util.module_from_spec(spec); mod.__package__ = 'pysph.tools'; spec.loader.exec_module(mod)
+C = getattr(mod, d['cls']); eq = C.__new__(C)
+names = [n for n in inspect.signature(C.post_loop).parameters if n != 'self']
+vals = {}
+for n in names:
+    vals[n] = 0 if n == 'd_idx' else ([7.0 * 1e-13] if n == 'd_prop' else [1e-13])
+C.post_loop(eq, **vals)
+print(json.dumps(dict(got=vals['d_prop'][0])))
+"""
+        try:
+            r = native.run_venv(script, dict(root=REPO_ROOT, cls=cls))
+        except Exception as e:
+            return dict(reproduced=False, note=str(e)[-300:])
+        return dict(reproduced=abs(r['got'] - 7.0) > 1e-9,
+                    case='constant field 7 seen through a total weight of '
+                         '1e-13 (e.g. a 3-D set with lengths of order 1e5)',
+                    observed=r['got'], expected=7.0)
+    ctx.prove('%s.mean_for_every_positive_weight' % T, strict, use_nf=False,
+              replay=rp_small)
 
 
 # ------------------------------------------------------------------- order1
